@@ -171,6 +171,7 @@ func udpRun(w *vt.Writer, r *rand.Rand, pool []*entities.InfoElement, dur time.D
 		late := -1 // manyTemplates: number of new templates still to send inside the first refresh burst
 		lastNew := time.Now()
 		var burstAt time.Time
+		appSet := entities.NewSet(false)
 		var lateSets []sets.Desc
 		var lateBuilt []entities.Set
 		for {
@@ -250,7 +251,9 @@ func udpRun(w *vt.Writer, r *rand.Rand, pool []*entities.InfoElement, dur time.D
 			}
 			dist[h.Sum64()] = true
 			evals++
-			set := d.Build()
+			// ONE set object for everything the application sends, recycled with ResetSet (what was handed to SendSet
+			// earlier - a template set in particular - is the application's to reuse)
+			set := d.BuildInto(appSet)
 			w.Emit(vt.Ev{"e": "SendBegin", "set": d.JSON(), "ms": ms()})
 			m0 := ms()
 			n, err := ep.SendSet(set)
